@@ -58,7 +58,7 @@ func (i ItemCollection) MarshalJSON() ([]byte, error) {
 // and ensures ItemCollection implements the Collection interface
 func (i *ItemCollection) Append(it ...Item) error {
 	for _, ob := range it {
-		if i.Contains(ob) {
+		if IsNil(ob) || i.Contains(ob) {
 			continue
 		}
 		*i = append(*i, ob)
